@@ -40,7 +40,7 @@ def analyze_source(repo, module, source, qual='<reference>'):
     tree = ast.parse(textwrap.dedent(source))
     node = tree.body[0]
     fi = FuncInfo(qual, node, repo.module(module))
-    fa = FuncAnalysis(repo, fi)
+    fa = FuncAnalysis(repo, fi, versioned=True)
     # nested defs of the reference (analysed with the enclosing environment)
     from .model import _nested_defs
     fa.nested_analyses = {}
@@ -48,7 +48,7 @@ def analyze_source(repo, module, source, qual='<reference>'):
         q2 = qual + '.<locals>.' + sub.name
         fi2 = FuncInfo(q2, sub, repo.module(module), parent=fi)
         closure = {k: v for k, v in fa.closures.get(q2, fa.env).items() if isinstance(k, str)}
-        fa.nested_analyses[sub.name] = FuncAnalysis(repo, fi2, closure=closure)
+        fa.nested_analyses[sub.name] = FuncAnalysis(repo, fi2, closure=closure, versioned=True)
     return fa
 
 
@@ -76,11 +76,11 @@ def effects(fa, rename=None, keep_calls=True, drop_guards=()):
         elif k in ('return', 'yield', 'yield_from'):
             p = (k, r(e.value))
         elif k == 'store_sub':
-            p = (k, r(e.base), r(e.key), r(e.value))
+            p = (k, T.unmut(r(e.base)), r(e.key), r(e.value))
         elif k == 'store_attr':
-            p = (k, r(e.base), e.attr, r(e.value))
+            p = (k, T.unmut(r(e.base)), e.attr, r(e.value))
         elif k == 'aug_sub':
-            p = (k, r(e.base), r(e.key), e.op, r(e.value))
+            p = (k, T.unmut(r(e.base)), r(e.key), e.op, r(e.value))
         elif k == 'aug_attr':
             p = (k, r(e.base), e.attr, e.op, r(e.value))
         elif k == 'del':
@@ -90,7 +90,10 @@ def effects(fa, rename=None, keep_calls=True, drop_guards=()):
         elif k == 'call' and e.stmt and keep_calls and not e.d.get('in_comp'):
             if _is_logging(e.f):
                 continue
-            p = ('call', r(e.term))
+            t = r(e.term)
+            if t[0] == 'call' and t[1][0] == 'attr' and t[1][1][0] == 'mut':
+                t = ('call', ('attr', T.unmut(t[1][1]), t[1][2]), t[2], t[3])
+            p = ('call', t)
         elif k in ('store_global', 'store_nonlocal'):
             p = (k, e.name, r(e.value))
         else:
@@ -143,6 +146,9 @@ def compare(ctx, rule, fa, ref_source, module=None, known=(), ignore=None, why='
     list of (predicate(found_str, expected_str) -> bool, key, reason) for
     recorded genuine defects."""
     module = module or fa.module.name
+    # re-evaluate the function with mutation versioning so that the comparison is
+    # sensitive to the order of in-place updates relative to reads
+    fa = FuncAnalysis(ctx.repo, fa.fi, closure=fa.closure, versioned=True)
     ref = ref_fa if ref_fa is not None else analyze_source(ctx.repo, module, ref_source)
     rename = dict(extra_rename or {})
     # nested function references are matched by order of definition
